@@ -300,11 +300,31 @@ def _is_true(e):
     return isinstance(e, ast.Constant) and e.value is True
 
 
-def pair_view(ctx, fn, region, subjects, what, rule='T27'):
+def pair_view(ctx, fn, region, subjects, what, rule='T27', prog=None, ci=None, _depth=0):
     """Inside `region` (a list of statements of fn) every enumeration of a subject's content goes through the all-pairs
     view (X.items/keys/values(multi=True), the ring `X.root`, or a private helper of X) and never through the per-key
     view (iteration over X, X.keys()/items()/values() without multi=True, dict.*(X, ...), reversed(X), ...)."""
     nodes = [n for st in region for n in ast.walk(st)]
+    # the region only delegates to a private method of self: judge that method's body (subjects renamed to its parameters)
+    if prog is not None and ci is not None and _depth < 2:
+        calls = [n for n in nodes if isinstance(n, ast.Call) and isinstance(n.func, ast.Attribute) and txt(n.func.value) == 'self'
+                 and n.func.attr.startswith('_') and not n.func.attr.startswith('__') and
+                 isinstance(prog.resolve(ci, n.func.attr), FuncInfo)]
+        if calls and len(region) == 1 and isinstance(region[0], (ast.Return, ast.Expr)) and region[0].value is calls[0]:
+            h = prog.resolve(ci, calls[0].func.attr)
+            ren = []
+            for S in subjects:
+                if S == 'self':
+                    ren.append('self')
+                    continue
+                pos = [i for i, a in enumerate(calls[0].args) if isinstance(a, ast.Name) and a.id == S]
+                kw = [k.arg for k in calls[0].keywords if isinstance(k.value, ast.Name) and k.value.id == S]
+                if pos and pos[0] + 1 < len(h.params):
+                    ren.append(h.params[pos[0] + 1])
+                elif kw:
+                    ren.append(kw[0])
+            if len(ren) == len(subjects):
+                return pair_view(ctx, h, h.node.body, ren, what, rule=rule, prog=prog, ci=ci, _depth=_depth + 1)
     for S in subjects:
         bad = []
         good = []
